@@ -770,10 +770,10 @@ func vfDiff(a, b any, path string) string {
 		// keys of such maps are scalars; compare through their printed form
 		xs, ys := map[string]any{}, map[string]any{}
 		for k, v := range x {
-			xs[fmt.Sprintf("%T:%v", k, k)] = v
+			xs[vfKeyString(k)] = v
 		}
 		for k, v := range y {
-			ys[fmt.Sprintf("%T:%v", k, k)] = v
+			ys[vfKeyString(k)] = v
 		}
 
 		return vfDiff(xs, ys, path)
@@ -831,6 +831,19 @@ func vfDiff(a, b any, path string) string {
 	}
 
 	return ""
+}
+
+// vfKeyString prints a non-string map key; numbers by value (see vfDiff on
+// floats without fraction).
+func vfKeyString(k any) string {
+	if f, ok := k.(float64); ok && f == math.Trunc(f) && math.Abs(f) < 1<<53 {
+		k = int(f)
+	}
+	if t, ok := k.(time.Time); ok {
+		k = t.UTC().Format(time.RFC3339Nano)
+	}
+
+	return fmt.Sprintf("%T:%v", k, k)
 }
 
 func vfShow(v any) string {
